@@ -228,14 +228,26 @@ theorem sendRequest_wire {σ} (hook : ObjHook σ) (w : Cli.World σ) (rs : Resul
     rw [sendRequest]
     generalize sendUnit hook w seq (Cl.multiMsg (reqs.map fun q => Cl.readMsg q.path q.elements)) = res
     obtain ⟨w1, x⟩ := res
-    cases x <;> rfl
+    cases x with
+    | error e => rfl
+    | ok raw =>
+      dsimp only
+      cases multiPacketError (tagResp raw) with
+      | error e => rfl
+      | ok o => cases o <;> rfl
   | multiWrite seq reqs =>
     cases h
     refine ⟨seq, ?_⟩
     rw [sendRequest]
     generalize sendUnit hook w seq (Cl.multiMsg (reqs.map fun q => Cl.writeMsg q.path q.typeBytes q.elements q.value)) = res
     obtain ⟨w1, x⟩ := res
-    cases x <;> rfl
+    cases x with
+    | error e => rfl
+    | ok raw =>
+      dsimp only
+      cases multiPacketError (tagResp raw) with
+      | error e => rfl
+      | ok o => cases o <;> rfl
   | readFrag r => cases h
   | writeFrag r => cases h
 
